@@ -9,6 +9,7 @@
 #include <atomic>
 #include <mutex>
 #include <sched.h>
+#include <sys/wait.h>
 VH_MAIN_GLOBALS
 using namespace vh;
 
@@ -184,16 +185,33 @@ int main(int argc, char **argv) {
     // long runs: the same evaluations repeated far more often than any 8- or 16-bit counter, cache index or pool slot can
     // count, on one thread, every result compared with the reference (call number K must behave like call number 1)
     if (int K = args.i("longrun", 0)) {
-        std::vector<int> cheap; for (size_t i = 0; i < jobs.size(); i++) if (jobs[i].key == 1 && (jobs[i].kind == J_GATE || jobs[i].kind == J_BOOT_WOKS_FFT || jobs[i].kind == J_EXTPROD_FFT || jobs[i].kind == J_KEYSWITCH)) cheap.push_back((int) i);
+        std::vector<int> cheap; for (size_t i = 0; i < jobs.size(); i++) if (jobs[i].key == 1 && (jobs[i].kind == J_GATE || jobs[i].kind == J_EXTPROD_FFT || jobs[i].kind == J_KEYSWITCH)) cheap.push_back((int) i);
         for (size_t i = 0; i < jobs.size(); i++) if (jobs[i].kind == J_FFTMUL) cheap.push_back((int) i);
         std::vector<uint8_t> ob; uint64_t bad = 0; int first_bad = -1;
         for (int it = 0; it < K; it++) for (int ji: cheap) {
-            if (jobs[ji].kind == J_GATE && jobs[ji].gate == G_MUX && (it & 3)) continue;
+            if (jobs[ji].kind == J_GATE && jobs[ji].gate == G_MUX && (it & 7)) continue;
             VH_OP("longrun:%s:call=%d", jobs[ji].name().c_str(), it);
             run_job(jobs[ji], ob); comparisons++;
             if (ob != jobs[ji].ref) { bad++; mismatches++; if (first_bad < 0) { first_bad = it; mism.push_back({jobs[ji].name(), "long run: call number " + std::to_string(it), 1, 0, 0, 0}); } }
         }
         char cell[96]; snprintf(cell, sizeof cell, "%s:longrun:%d-calls-per-entry-point", cfg.c_str(), K); out.cell(cell, (uint64_t) K * cheap.size());
+    }
+    // fork history: a child process created by fork() (a pre-forking server) inherits the keys and whatever per-thread FFT state the
+    // forking thread had; it evaluates on its only thread and on two new threads; every result must equal the parent's references
+    if (args.i("fork", 0)) {
+        VH_OP("fork-history");
+        fflush(out.f);
+        pid_t pid = fork();
+        if (pid == 0) {
+            std::set<std::pair<int, int>> pp, p1, p2;
+            worker(1, 0, 0, seed + 31, 1, &pp);
+            std::thread a(worker, 2, 0, 1, seed + 32, 1, &p1), b(worker, 2, 1, 1, seed + 33, 1, &p2); a.join(); b.join();
+            _exit(mismatches.load() ? 3 : 0);
+        }
+        int st = 0; waitpid(pid, &st, 0); out.evaluations += 3 * jobs.size();
+        if (!WIFEXITED(st) || WEXITSTATUS(st) != 0)
+            out.viol("concurrency:output-differs:in-a-forked-child", J().s("config", cfg).i("exit_status", WIFEXITED(st) ? WEXITSTATUS(st) : -1).i("signal", WIFSIGNALED(st) ? WTERMSIG(st) : 0));
+        out.cell(cfg + ":forked-child(1 thread, then 2 threads)", 3 * jobs.size());
     }
     std::atomic<bool> idle_stop{false}; std::vector<std::thread> idlers;
     if (detached) for (int i = 0; i < 2; i++) { idlers.emplace_back([&] { while (!idle_stop.load()) usleep(2000); }); thread_creations++; }
